@@ -1192,6 +1192,52 @@ func genC15(g *G) {
 			}
 		}
 	}
+	// g. small-value byte substitution at every offset of the compressed polygons that carry off-centre vertices: the index of
+	// an off-centre vertex is a uvarint that must be < the vertex count n; values n-1, n, n+1 at every one-byte varint position
+	// hit that boundary (seeded change C15_1) together with many neighbouring fields
+	for _, b := range bases {
+		var ns []int
+		switch b.name {
+		case "comp-offcentre":
+			ns = []int{7, 8, 9}
+		case "comp-hole":
+			ns = []int{3, 4, 5, 6}
+		}
+		for o := 3; ns != nil && o < len(b.data); o++ {
+			for _, v := range ns {
+				if b.data[o] < 0x80 && int(b.data[o]) != v {
+					d := append([]byte{}, b.data...)
+					d[o] = byte(v)
+					em.emit("g:small-subst-comp", b.typ, d)
+				}
+			}
+		}
+	}
+	// h. lossless polygons with several loops: a failure INSIDE a nested loop that is not an I/O error (every single-bit flip of
+	// the loop's version byte; vertex count above the limit) while plenty of bytes follow — the polygon decoder must fail as a
+	// whole and must not go on reading (seeded change C15_2: a reader that forgets its sticky error)
+	for _, b := range bases {
+		if b.typ != "polygon" || (b.name != "unc-two" && b.name != "unc-hole" && b.name != "unc-many") {
+			continue
+		}
+		// header 7 bytes; loop k = version(1) n(4) vertices(24 n) originInside(1) depth(4) boundEncoded(1) bound(32)
+		off := 7
+		for k := 0; off+5 <= len(b.data) && k < 3; k++ {
+			n := int(b.data[off+1]) | int(b.data[off+2])<<8 | int(b.data[off+3])<<16 | int(b.data[off+4])<<24
+			if n < 0 || n > 1000 {
+				break
+			}
+			for bit := 0; bit < 8; bit++ {
+				d := append([]byte{}, b.data...)
+				d[off] ^= 1 << uint(bit)
+				em.emit("h:nested-version", b.typ, d)
+			}
+			d := append([]byte{}, b.data...)
+			d[off+1], d[off+2], d[off+3], d[off+4] = 0x81, 0xf0, 0xfa, 0x02 // 50000001 = limit + 1
+			em.emit("h:nested-count", b.typ, d)
+			off += 1 + 4 + 24*n + 1 + 4 + 1 + 32
+		}
+	}
 	mandatory := em.idx
 
 	// ---- sampled, seed-dependent part ------------------------------------
